@@ -112,6 +112,57 @@ fn walk(h: &Hir, must: bool, always: &mut Vec<bool>, classes: &mut Vec<Vec<char>
     }
 }
 
+/// structural rendering of the pattern: a JSON tree of concat / alt / rep / class / lit / look / cap nodes.
+/// A class is given by the ASCII printable characters (plus \n, \t) it EXCLUDES and whether it admits non-ASCII.
+fn shape(h: &Hir) -> String {
+    match h.kind() {
+        HirKind::Empty => "{\"k\":\"empty\"}".to_string(),
+        HirKind::Literal(l) => format!("{{\"k\":\"lit\",\"v\":{}}}", esc(&String::from_utf8_lossy(&l.0))),
+        HirKind::Class(c) => {
+            let probe: Vec<char> = (0x20u8..0x7f).map(|b| b as char).chain(vec!['\n', '\t']).collect();
+            let mut excl = String::new();
+            let mut non_ascii = false;
+            match c {
+                Class::Unicode(cu) => {
+                    for ch in probe {
+                        if !cu.ranges().iter().any(|r| r.start() <= ch && ch <= r.end()) {
+                            excl.push(ch);
+                        }
+                    }
+                    non_ascii = cu.ranges().iter().any(|r| (r.end() as u32) > 0x7f);
+                }
+                Class::Bytes(cb) => {
+                    for ch in probe {
+                        let b = ch as u8;
+                        if !cb.ranges().iter().any(|r| r.start() <= b && b <= r.end()) {
+                            excl.push(ch);
+                        }
+                    }
+                    non_ascii = cb.ranges().iter().any(|r| r.end() > 0x7f);
+                }
+            }
+            format!("{{\"k\":\"class\",\"excl\":{},\"non_ascii\":{}}}", esc(&excl), non_ascii)
+        }
+        HirKind::Look(l) => format!("{{\"k\":\"look\",\"v\":{}}}", esc(&format!("{:?}", l))),
+        HirKind::Repetition(r) => format!(
+            "{{\"k\":\"rep\",\"min\":{},\"max\":{},\"greedy\":{},\"of\":{}}}",
+            r.min,
+            r.max.map(|m| m.to_string()).unwrap_or_else(|| "null".to_string()),
+            r.greedy,
+            shape(&r.sub)
+        ),
+        HirKind::Capture(c) => format!("{{\"k\":\"cap\",\"i\":{},\"of\":{}}}", c.index, shape(&c.sub)),
+        HirKind::Concat(v) => format!(
+            "{{\"k\":\"concat\",\"of\":[{}]}}",
+            v.iter().map(shape).collect::<Vec<_>>().join(",")
+        ),
+        HirKind::Alternation(v) => format!(
+            "{{\"k\":\"alt\",\"of\":[{}]}}",
+            v.iter().map(shape).collect::<Vec<_>>().join(",")
+        ),
+    }
+}
+
 fn main() {
     let stdin = std::io::stdin();
     let out = std::io::stdout();
@@ -157,6 +208,7 @@ fn main() {
             s.push_str(&format!(",\"classes\":[{}]", cl.join(",")));
             let ls: Vec<String> = lits.iter().map(|l| esc(l)).collect();
             s.push_str(&format!(",\"literals\":[{}]", ls.join(",")));
+            s.push_str(&format!(",\"shape\":{}", shape(&hir)));
             // can the whole pattern match the empty string?
             s.push_str(&format!(
                 ",\"min_len\":{}",
